@@ -390,7 +390,7 @@ static int is_encrypted_filename(const char *filename)
     if (len >= 6)
         return !strncmp(filename + len - 6, ".ascon", 6);
     else
-        return 1;
+        return 0;
 }
 
 /* Strips the ".ascon" suffix from a filename */
@@ -398,7 +398,7 @@ static const char *strip_suffix(const char *filename)
 {
     size_t len = strlen(filename) - 6;
     if (len >= sizeof(temp_filename))
-        len = sizeof(temp_filename);
+        len = sizeof(temp_filename) - 1;
     memcpy(temp_filename, filename, len);
     temp_filename[len] = '\0';
     return temp_filename;
